@@ -131,7 +131,8 @@ def match_finding(findings, prop, unit, desc, where):
 # evidence
 # ---------------------------------------------------------------------------------------------
 def write_evidence(prop, tier, level, coverage, assumptions, wall_s, violations):
-    os.makedirs(os.path.join(VERIF, "evidence"), exist_ok=True)
+    evdir = "evidence" if REPO == "/repo" else os.path.join(".cache", "evidence_alt")  # runs against a copy never touch evidence/
+    os.makedirs(os.path.join(VERIF, evdir), exist_ok=True)
     ev = {
         "property_id": prop,
         "tier": tier,
@@ -143,7 +144,7 @@ def write_evidence(prop, tier, level, coverage, assumptions, wall_s, violations)
         "violations": violations,
         "repo": repo_fingerprint(),
     }
-    p = os.path.join(VERIF, "evidence", prop + ".json")
+    p = os.path.join(VERIF, evdir, prop + ".json")
     tmp = p + ".tmp"
     with open(tmp, "w") as f:
         json.dump(ev, f, indent=1, sort_keys=False)
